@@ -50,6 +50,7 @@ type vfiStep struct {
 	Res struct {
 		Ok     bool  `json:"ok"`
 		Pruned []int `json:"pruned"`
+		Lowset bool  `json:"lowset"`
 	} `json:"res"`
 	Obs vfiObs `json:"obs"`
 }
@@ -200,6 +201,9 @@ func TestVerifFinality(t *testing.T) {
 						cls = "stale-ancestor"
 					case vfiIn(s.Obs.Gone, o.B):
 						cls = "abandoned"
+					}
+					if s.Res.Lowset {
+						cls += "-under-lower-set-id"
 					}
 					before := w.projection()
 					err := bs.SetFinalisedHash(w.h(o.B), o.R, o.S)
